@@ -55,16 +55,27 @@ def injected_faults(sc, seed, tier, only=None):
     nworlds = 5 if tier == "quick" else 40
     cap = 24 if tier == "quick" else 200
     errnos = [E.EIO, E.ENOSPC, E.EACCES, E.ENOENT]
-    for i in (range(nworlds) if only is None else [only["index"]]):
+    ndel = 2 if tier == "quick" else 10                      # further worlds in which the DELETIONS are what fails
+    for i in (range(nworlds + ndel) if only is None else [only["index"]]):
         r = vlib.rng_for(seed, "C10-inject-%d" % i)          # one generator per world: a world can be rebuilt for a replay
         sspec, dspec = ew.gen_world(r, with_big=(i % 2 == 0))
         fl = ew.gen_flags(r, allow_delete=(i % 3 == 2))
         fl["maxerr"] = 100
         fl["j"] = 1 if i % 4 != 3 else 4
+        deletion_world = i >= nworlds
+        if deletion_world:
+            fl.update({"delete": 1, "force": 1, "thr": 100, "j": 1}); fl.pop("dry", None)
+            have = {e["p"] for e in sspec} | {e["p"] for e in dspec}
+            for q in range(r.randrange(1, 3)):
+                d_ = "zz_stale%d" % q
+                if d_ not in have:
+                    dspec += [{"p": d_, "k": "d"}] + [{"p": "%s/f%d" % (d_, z), "k": "f", "data": b"stale %d" % z, "mt_ns": 10**9} for z in range(r.randrange(2, 5))]
+                    dspec += [{"p": d_ + "/sub", "k": "d"}, {"p": d_ + "/sub/deep", "k": "f", "data": b"deep", "mt_ns": 10**9}]
+            dspec.append({"p": "zz_stale_file", "k": "f", "data": b"x", "mt_ns": 10**9})
         # (seed C10-4) every other world runs with the checksum database: what a faulted run stores there must not make the NEXT run
         # accept the file the fault left behind
         xargs = []
-        if i % 2 == 1:
+        if i % 2 == 1 and i < nworlds:
             fl.pop("so", None); fl.pop("it", None); fl["ck"] = 1
             xargs = ["--checksum-db=true"]
         tpl = os.path.join(sc.dir, "itpl%d" % i)
@@ -98,6 +109,9 @@ def injected_faults(sc, seed, tier, only=None):
         stats["worlds"] += 1
         ncalls = max(calls) if calls else 0
         ks = list(range(1, ncalls + 1))
+        if deletion_world:
+            ks = [k for k in ks if k in calls and calls[k][1] in ("unlink", "rmdir")]
+            xargs = []
         if xargs:
             # SQLite's own writes dominate the numbering: fail the calls on the mirrored files, and a few of the database's
             own = [k for k in ks if k in calls and ".sy-checksums.db" in calls[k][2]]
@@ -146,10 +160,16 @@ def injected_faults(sc, seed, tier, only=None):
             # correspondence with Model/EngineFaults.v: given WHICH transfers failed (the error objects) and WHAT they left at their own
             # paths (junk), the rest of the run -- every other path, the events, the exit status -- must be run_f's
             errp = set(raw["errpaths"])
-            if errp and all(pth in raw["src"] and raw["src"][pth]["kind"] == "f" for pth in errp) and not raw["refused"] and not xargs:
+            # ... or (EngineFaults.v, second half) the DELETION of stale entries failed: the entry stays, and of what is below a directory
+            # whose removal stopped half-way [junk] lists what is still there
+            del_fault = {pth for pth in errp if pth not in raw["src"] and pth in raw["before"] and fl.get("delete")}
+            if errp and all((pth in raw["src"] and raw["src"][pth]["kind"] == "f") or pth in del_fault for pth in errp) and not raw["refused"] and not xargs:
                 idp = {raw["ids"].path(pth) for pth in errp}
+                didp = {raw["ids"].path(pth) for pth in del_fault}
                 dst_items = dict(x.split("=", 1) for x in raw["obs"].split(" ")).get("dst", "-")
-                junk = [it for it in dst_items.split(",") if it != "-" and it.split(":")[1] in idp]
+                junk = [it for it in dst_items.split(",") if it != "-" and (it.split(":")[1] in idp or any(it.split(":")[1].startswith(d_ + ".") for d_ in didp))]
+                if del_fault:
+                    stats["ef_deletion_faults"] = stats.get("ef_deletion_faults", 0) + 1
                 ef_cases.append("EF" + raw["case"][1:] + " %s %s" % (",".join(sorted(idp)), ",".join(junk) or "-"))
                 # the footprint of a transfer is its destination AND its working file (Temp.v): when the clean-up of the working
                 # file fails too (a pair of faults) it stays behind -- part of "what the failing task left", not of the comparison
